@@ -21,6 +21,17 @@ from yatiml.util import ScalarType, scalar_type_to_tag
 _Any = NewType('_Any', int)
 
 
+def _float_to_yaml(value: float) -> str:
+    """Spells a float the way PyYAML does when dumping one.
+
+    That is with .inf and .nan for the special values, and with a
+    fraction point also if there is an exponent, so that the text is a
+    float for any YAML parser and needs no explicit tag.
+    """
+    return str(yaml.representer.SafeRepresenter().represent_float(
+        value).value)
+
+
 class Node:
     """A wrapper class for yaml Nodes that provides utility functions.
 
@@ -124,6 +135,8 @@ class Node:
             value_str = 'true' if value else 'false'
         elif value is None:
             value_str = 'null'
+        elif isinstance(value, float):
+            value_str = _float_to_yaml(value)
         else:
             value_str = str(value)
         start_mark = self.yaml_node.start_mark
@@ -271,7 +284,8 @@ class Node:
             value_node = yaml.ScalarNode('tag:yaml.org,2002:int', str(value),
                                          start_mark, end_mark)
         elif isinstance(value, float):
-            value_node = yaml.ScalarNode('tag:yaml.org,2002:float', str(value),
+            value_node = yaml.ScalarNode('tag:yaml.org,2002:float',
+                                         _float_to_yaml(value),
                                          start_mark, end_mark)
         elif value is None:
             value_node = yaml.ScalarNode('tag:yaml.org,2002:null', '',
